@@ -4,6 +4,11 @@ import json, os
 V = os.path.dirname(os.path.dirname(os.path.abspath(__file__)))
 ALL = ["C%02d" % i for i in range(1, 21)]
 CLAIMED = {
+ "C07": dict(
+   text="Machine-checked proof (Coq, axiom-free) over the life-cycle model of Storage/Array: for EVERY history of sized/default/copy/slice/soft-link/external construction, link, copy and move assignment (three kinds of temporaries), resize, clear, destruction and writes, each undeleted Storage's link count equals the number of live array objects owning a link (>= 1), no owner refers to deleted data, existing objects = created - deleted, no link operation ever touches deleted storage (no double free), all data is released when the last object goes (no leak), and '=' never makes the target refer to memory it did not already refer to other than a Storage created by that very operation (so later changes to the source or to external/stack memory cannot show through). Tie: extracted model compared after every operation with the real classes under ASan+LeakSanitizer, and both compared with an independent Python specification of sharing-vs-copy semantics.",
+   note="Rank-1 arrays and contiguous views in model and harness (higher ranks, FixedArray and SpecialMatrix use the same Storage protocol); freeing data still addressed by a soft link is a documented user error and excluded; defect D2 (move-assign from a temporary on user memory aliased it) was repaired (fix commit 1075e40).",
+   technique="Coq proof of reference-count invariant (induction over operation histories) + differential run + independent specification oracle",
+   design="DESIGN.md §4 C07"),
  "C08": dict(
    text="Machine-checked proof (Coq 8.16, axiom-free) that the gap-list allocator model satisfies a pointwise partition invariant over every finite history of register/unregister/new_recording, with corollaries: live blocks pairwise disjoint, below i_gradient <= max_gradients, registered count = live elements, handed-out blocks were not live. The model is tied to adept::Stack by comparing every step of exhaustively enumerated and random histories (direct API and real adouble/aVector objects) on the current sources.",
    note="Hand-written model GapList.v (trusted until compared): correspondence run on every invocation; 32-bit overflow not modelled; derivative correctness under recycling is covered by C01/C03.",
